@@ -104,7 +104,9 @@ def _classes():
                 return [False, 0, 0.0][self.n % 3]
             if how == "badcoll":
                 return [[b, 5], "abc", (None,)][self.n % 3]
-            items = [retag(b, t) for t in how[1:]]
+            # equal tags give the SAME block instance several times ([x, x]): every occurrence is added
+            made = {}
+            items = [made.setdefault(t, retag(b, t)) for t in how[1:]]
             return items if self.n % 2 else tuple(items)
 
         def transform_entry(self, e, library):
@@ -276,6 +278,7 @@ def gen(tier, rng):
     for doc in range(len(DOCS)):
         for how in ("pop", "clear", "reverse", "append", "insert"):
             yield {"op": "defmut", "doc": doc, "how": how}
+        yield {"op": "fmtreuse", "doc": doc}
 
 
 def _stack_wire(st):
@@ -297,7 +300,7 @@ def request(case):
         else:
             start = _split_blocks(text)
         return rq("parsestack", B.enc_blocks(start), [], _stack_wire(case["ps"]), _stack_wire(case["am"]))
-    if case["op"] in ("libmw", "shipped", "defmut"):
+    if case["op"] in ("libmw", "shipped", "defmut", "fmtreuse"):
         return None
     if case["op"] == "write":
         start = bibtexparser.parse_string(text).blocks
@@ -437,6 +440,39 @@ def _defmut_check(case):
     return None
 
 
+def _fmtreuse_check(case):
+    """one BibtexFormat object (value_column='auto') handed to write_string / write_file for two different libraries: each
+    text is what a fresh format object with the same settings gives, and the caller's object is not changed"""
+    import io
+    import bibtexparser
+    from bibtexparser.writer import BibtexFormat
+    a = bibtexparser.parse_string(DOCS[case["doc"]])
+    b = bibtexparser.parse_string("@a{kk, averyveryverylongfieldkey = {v}, x = {y}}\n" + DOCS[case["doc"]])
+
+    def fresh():
+        f = BibtexFormat()
+        f.value_column = "auto"
+        f.indent = " "
+        return f
+
+    shared = fresh()
+    for lib in (b, a, b):
+        for pm in (None, [_probe(["tag", "7"])]):
+            kw = {"prepend_middleware": pm} if pm else {}
+            kw2 = {"prepend_middleware": [_probe(["tag", "7"])]} if pm else {}
+            got = bibtexparser.write_string(lib, bibtex_format=shared, **kw)
+            want = bibtexparser.write_string(lib, bibtex_format=fresh(), **kw2)
+            if got != want:
+                return "write_string with a format object used before gives %r, with a fresh equal format %r" % (got[:120], want[:120])
+            buf = io.StringIO()
+            bibtexparser.write_file(buf, lib, bibtex_format=shared)
+            if pm is None and buf.getvalue() != want:
+                return "write_file with a format object used before writes %r, a fresh equal format gives %r" % (buf.getvalue()[:120], want[:120])
+            if shared.value_column != "auto":
+                return "the caller's format object was changed: value_column is now %r" % (shared.value_column,)
+    return None
+
+
 def _libmw_check(case):
     """every requested library-level middleware runs exactly once, in the requested order, on every document"""
     import bibtexparser
@@ -491,6 +527,11 @@ def impl(case):
         if f:
             raise AssertionError(f)
         return "(ok defmut)"
+    if case["op"] == "fmtreuse":
+        f = _fmtreuse_check(case)
+        if f:
+            raise AssertionError(f)
+        return "(ok fmtreuse)"
     text = DOCS[case["doc"]]
     if case["op"] == "parse":
         ct = case.get("ct", "list")
@@ -605,6 +646,8 @@ def oracle(case):
         return _shipped_check(case)
     if case["op"] == "defmut":
         return _defmut_check(case)
+    if case["op"] == "fmtreuse":
+        return _fmtreuse_check(case)
     text = DOCS[case["doc"]]
     if case["op"] == "parse":
         ps, am = case["ps"], case["am"]
@@ -675,7 +718,7 @@ def describe(cases, outs):
 
 
 def nontrivial(case, out):
-    return bool(case.get("ps") or case.get("am") or case.get("us") or case.get("pm")) or case["op"] in ("file", "libmw", "shipped", "defmut")
+    return bool(case.get("ps") or case.get("am") or case.get("us") or case.get("pm")) or case["op"] in ("file", "libmw", "shipped", "defmut", "fmtreuse")
 
 
 PY_ONLY_MAY_RAISE = False
